@@ -277,6 +277,10 @@ class Origins:
             return ("oneof", sub) if len(sub) != 1 else next(iter(sub))
         if t[0] == "elem" and len(t) == 2 and isinstance(t[1], tuple) and t[1] and t[1][0] == "zip" and label in ("0", "1"):
             return elem_of(t[1][1 + int(label)])
+        if t[0] == "call" and t[1].endswith("slice::<impl [T]>::split_first") and len(t[2]) == 1 and len(t[2][0]) == 1 and label in ("0", "1"):
+            # `split_first()` -> Some((first, rest))
+            base = next(iter(t[2][0]))
+            return ("elem", base, 0) if label == "0" else ("subslice", base, 1)
         if t[0] == "enumitem":
             if label == "1":
                 return ("elem", t[1])
@@ -441,6 +445,18 @@ class Origins:
                 out.add(_subst_self(g, a))
             return out
         flatargs = tuple(frozenset(a) for a in A)
+        if callee == "<indirect>" and t.get("func"):
+            # a call through a function pointer: a direct call when the pointer is one named function here; otherwise the
+            # pointer's provenance travels with the term (5th component) so that a rule can resolve it in context
+            ft = set()
+            for x in self.of_operand(t["func"], depth):
+                while x[0] == "cast":
+                    x = x[1]
+                ft.add(x)
+            names = {x[1] for x in ft if x[0] == "fnitem"}
+            if ft and len(names) == 1 and all(x[0] == "fnitem" for x in ft):
+                return {("call", next(iter(names)), flatargs, blk)}
+            return {("call", callee, flatargs, blk, frozenset(ft))}
         return {("call", callee, flatargs, blk)}
 
 
